@@ -316,6 +316,10 @@ def c04(c):
     c.add_mc(mc)
     _keys(c, lambda ev, v: ev.get("ev") in ("key", "keylight") and bool(_failed(v) & C04_FACTS),
           200 if thorough else 8, 60 if thorough else 4, 0, 0)
+    # the solver behind the equation: every level of the field-norm tower, on signed big integers
+    drive("solve", ["--tier", c.tier, "--seed", c.seed, "--out", c.work, "--shards", 12])
+    to = validate_traces("Trace_Solve", traces_in(c.work, "solve"), parallel=PAR, timeout=7200)
+    c.add_traces(to, keyfn=generic_key, label="solve")
     c.assumptions += ["'for every seed' is sampled", "leaves are observed through the read-only accessor; inner tree nodes are covered by C10's moments only",
                       "the second Gram-Schmidt bound is checked through its equivalent, the leaf range"]
 
@@ -507,3 +511,11 @@ def c10(c):
     c.assumptions += ["three aggregated families of directions (the 2n basis-row rotations exactly, the overall norm), not each Gram-Schmidt "
                       "direction separately: a leak confined to deep tree levels that preserves all aggregates is not seen",
                       "windows are 6.5 standard deviations of the estimators (false alarm < 1e-9)", "the analytic sphericity argument is not derived"]
+
+
+def growth(c):
+    """Not a listed property: specification growth (DESIGN.md section 10).  ./check growth"""
+    c.cov["rule"] = "NTRUSolve at every level of the field-norm tower (Trace_Solve); gen_poly (Trace_Sampler genpoly events)"
+    drive("solve", ["--tier", c.tier, "--seed", c.seed, "--out", c.work, "--shards", 12])
+    to = validate_traces("Trace_Solve", traces_in(c.work, "solve"), parallel=PAR, timeout=7200)
+    c.add_traces(to, keyfn=generic_key, label="solve")
